@@ -363,7 +363,7 @@ def prog_C07(ctx):
 
 def prog_C11(ctx):
     fsm_part(ctx, ['C05', 'C11'], ['event_dkg'])
-    res = generic(ctx, ['Dc4bcVerif.Props.C11', 'Dc4bcVerif.Props.C11Air', 'Dc4bcVerif.Props.AirDkgSrc', 'Dc4bcVerif.Props.C02'], 'algdiff', 'alg', ['C11'], ALG_TRUSTED,
+    res = generic(ctx, ['Dc4bcVerif.Props.C11', 'Dc4bcVerif.Props.C11Air', 'Dc4bcVerif.Props.C12AirOrder', 'Dc4bcVerif.Props.AirDkgSrc', 'Dc4bcVerif.Props.C02'], 'algdiff', 'alg', ['C11'], ALG_TRUSTED,
             ALG_RULE + '; C11: one key generation per (deviation kind, dealer, victim): broadcast commitments with replaced tail / all replaced / longer / shorter / a non-point, deal bit-flipped / truncated / empty / meant for somebody else, a response turned into a complaint; quick: (3,2) one pair per kind; thorough: four configurations, all or sampled pairs; plus a control run without deviation',
             cov_from_stats=alg_cov)
     airdkg_part(ctx, res)
@@ -414,7 +414,7 @@ def air_cov(ctx, st):
 
 
 def prog_C12(ctx):
-    res = generic(ctx, ['Dc4bcVerif.Props.C12', 'Dc4bcVerif.Props.C12Process', 'Dc4bcVerif.Props.C12Air', 'Dc4bcVerif.Props.AirDkgSrc', 'Dc4bcVerif.Props.C12Seed', 'Dc4bcVerif.Props.C18Air'], 'airdiff', 'air', ['C12'], AIR_TRUSTED +
+    res = generic(ctx, ['Dc4bcVerif.Props.C12', 'Dc4bcVerif.Props.C12Process', 'Dc4bcVerif.Props.C12Air', 'Dc4bcVerif.Props.C12AirOrder', 'Dc4bcVerif.Props.AirDkgSrc', 'Dc4bcVerif.Props.C12Seed', 'Dc4bcVerif.Props.C18Air'], 'airdiff', 'air', ['C12'], AIR_TRUSTED +
             ['translator: every write to and every use of the airgapped machine\'s in-memory base seed, and what dkg.InitDKGInstance does with the slice it is handed (Gen/SeedFacts.lean), regenerated on every run; frand.NewCustom / sha256 / the suite constructor not writing their argument is trusted and exercised by the second-ceremony restarts'],
             'ceremonies (3,2),(2,2) [thorough: +(4,3),(3,3)]; per ceremony one participant: restart before every operation, and (sampled in quick, all in thorough) kill-before-log and kill-after-log at every operation, plus one run restarting after every step; two clones fed the same operations; then a SECOND ceremony of the same participants handled by the same process: the same restart points inside it (sampled in quick), and a machine fed the second ceremony alone',
             cov_from_stats=air_cov)
